@@ -6,7 +6,7 @@ ID = "C20"
 ENGINE = "puritysim"
 LEVEL = "exploration"
 EXPECTED_S_PER_RUN = 5.0
-TIERS = {"quick": 240, "thorough": 8000}
+TIERS = {"quick": 240, "thorough": 4000}
 
 RULE = (
     "each run draws one set of shared objects: a loss (LossODE, LossPDEStatio 1-D/2-D, LossPDENonStatio 1-D/2-D, SystemLossODE, "
